@@ -127,6 +127,33 @@ def regex_match(I, pattern, method, args, node):
 
 def call_lib(I, name, args, kwargs, node):
     a = args
+    if name in ("hashlib.new", "hashlib.sha256", "hashlib.sha1", "hashlib.md5", "hashlib.sha512", "hashlib.blake2b"):
+        # digests of constants are folded with the standard library (trusted); anything else is unknown
+        import hashlib
+        try:
+            if name == "hashlib.new":
+                h = hashlib.new(a[0].v, *[x.v for x in a[1:]]) if a and all(isinstance(x, Const) for x in a) else None
+            else:
+                h = getattr(hashlib, name.split(".")[1])(*[x.v for x in a]) if all(isinstance(x, Const) for x in a) else None
+        except Exception as e:
+            raise _Raise(f"{type(e).__name__} in {name}")
+        if h is None:
+            return Top(f"{name} of non-constant arguments")
+        state = {"known": True}
+
+        def upd(I_, args, kw):
+            if args and isinstance(args[0], Const) and isinstance(args[0].v, (bytes, bytearray)):
+                h.update(args[0].v)
+            else:
+                state["known"] = False
+            return Const(None)
+
+        def hexd(I_, args, kw):
+            return Const(h.hexdigest()) if state["known"] else Top("digest of unknown data")
+
+        def dig(I_, args, kw):
+            return Const(h.digest()) if state["known"] else Top("digest of unknown data")
+        return Obj("Hash", OrderedDict(update=Fn("py", impl=upd, name="update"), hexdigest=Fn("py", impl=hexd, name="hexdigest"), digest=Fn("py", impl=dig, name="digest")))
     if name == "itertools.accumulate":
         seq = a[0] if a else None
         if isinstance(seq, (ListLit, TupS)) and all(isinstance(x, Const) and isinstance(x.v, (int, float)) for x in seq.elts) and len(a) == 1 \
@@ -370,7 +397,14 @@ def tag_leaves(I, v, tag):
     if isinstance(v, ListLit):
         return ListLit([tag_leaves(I, x, tag) for x in v.elts])
     if isinstance(v, Choice):
-        return Choice([tag_leaves(I, x, tag) for x in v.alts])
+        return Choice([tag_leaves(I, x, tag) for x in v.alts], v.labels)
+    if isinstance(v, DictS):
+        d = DictS(OrderedDict((k, tag_leaves(I, x, tag)) for k, x in v.items.items()), v.optional)
+        if getattr(v, "table", None) is not None:
+            d.table = v.table
+        return d
+    if isinstance(v, TupS):
+        return TupS([tag_leaves(I, x, tag) for x in v.elts])
     return v
 
 
@@ -577,10 +611,17 @@ def builtin(I, name, a, kwargs, node):
             return TupS([Const(q), Const(r)])
         if lv:
             return TupS([lv[0].derive("divmod[0]", "number"), lv[0].derive("divmod[1]", "number")])
-    if name == "sorted":
+    if name in ("sorted", "reversed"):
         v = a[0]
-        if isinstance(v, ListLit) and all(isinstance(x, Const) for x in v.elts):
+        if name == "sorted" and isinstance(v, ListLit) and all(isinstance(x, Const) for x in v.elts) and not kwargs:
             return ListLit(sorted(v.elts, key=lambda c: c.v))
+        if name == "reversed" and isinstance(v, (ListLit, TupS)):
+            return ListLit(list(reversed(v.elts)))
+        if isinstance(v, ListOf):
+            # the elements of a symbolic list (one per record / line) change places: order is part of the value
+            return tag_leaves(I, v, "reordered:" + name + ("[" + ",".join(sorted(kwargs)) + "]" if kwargs else ""))
+        if isinstance(v, ListLit) and name == "sorted":
+            return Top("sorted() of non-constant elements", deps=I.leaves(v))
         return v
     if name in ("min", "max", "sum", "any", "all"):
         try:
